@@ -239,7 +239,7 @@ func main() {
 	c := kit.Parse("C02", os.Args[1:])
 	nGroup, nSolve := 700, 350
 	if c.Thorough() {
-		nGroup, nSolve = 8000, 4000
+		nGroup, nSolve = 6000, 3000
 	}
 	dbg := os.Getenv("C02_DEBUG") // case id to run alone with a dump (development aid)
 	for i := 0; i < nGroup; i++ {
@@ -271,5 +271,13 @@ func main() {
 		"Scheduler.Solve final placements satisfy Spec.interpod_ok_b",
 	}
 	c.Meta.Exhaustive = false
-	c.Finish("From KV Require Import Base.Req C02.Model C02.Spec C02.Check.", "case", "check_all", 300)
+	c.Meta.Extra = map[string]interface{}{"assumptions": []string{
+		"int32 domain counters are modelled in Z without wrap-around (2^31 pods per domain are out of reach)",
+		"one method call = one step; goroutine interleavings inside parallelizeUntil cannot be exhibited by the model (Solve is run with 1 and 4 workers)",
+		"the global statement (every Solve run ends in a state satisfying interpod_ok) is checked by the oracle on generated clusters, not proved; proved are the per-constraint invariants for all admit/commit traces",
+		"final-state spread oracle: applied when every new pod a constraint counts carries the same constraint and node eligibility is decided; existential over the last carrier per domain",
+		"pods placed on an existing node that lacks the topology label are in no domain and are not judged (counted as observation buckets)",
+		"cluster-level default topology spread constraints (defaultconstraints.go) are off (no --scheduler-config)",
+	}}
+	c.Finish("From KV Require Import Base.Req C02.Model C02.Spec C02.Check.", "case", "check_all", map[bool]int{false: 300, true: 1000}[c.Thorough()])
 }
